@@ -227,6 +227,16 @@ class Resolver:
             if x['kind'] in ('err_own', 'err_prop', 'none_prop', 'none'):
                 continue
             outs.append((x, self.value(f, x['expr'], depth + 1)))
+        if f.kind != 'Closure' and f.raw.get('output', '').startswith('std::option::Option<') and any(x['kind'] == 'none' for x in f.exits()):
+            # a helper that returns Option<tokens>: its own `return None` paths make the tokens optional, under the conditions
+            # that dominate the Some exit
+            from guards import norm_pred
+            wrapped = []
+            for x, v in outs:
+                cs = [norm_pred(c, lab) for c, lab in self._conds(f, x)]
+                cond = cs[0] if len(cs) == 1 else ('and', cs)
+                wrapped.append((x, [('opt', cond, v, None)]))
+            outs = wrapped
         if len(outs) == 1:
             return outs[0][1]
         return [('alt', [(self._label(f, x), v, self._conds(f, x)) for x, v in outs])]
@@ -486,6 +496,16 @@ class Resolver:
             cur = self._peel(cur)
             if cur[0] == 'var':
                 ty = f.local_ty(cur[1])
+                lb = loop_built(f, cur[1]) if ty.startswith('std::vec::Vec<') and TS in ty else None
+                if lb:
+                    # `for x in SRC { v.push(E) }` is SRC.map(|x| E).collect()
+                    chain.append(('collect', None))
+                    chain.append(('map', ('loopbody', lb['push'])))
+                    elem = self.value(f, lb['elem'], depth + 1)
+                    cur = lb['source']
+                    if lb['filtered']:
+                        chain.append(('filter', ('loopcond', lb['push'], f.id)))
+                    continue
                 if ty.startswith('std::vec::Vec<') and TS in ty:
                     v = self._vec(f, cur[1], depth + 1)
                     if v[1]:
@@ -530,7 +550,12 @@ class Resolver:
 
 
 def find_next(e):
-    return any(isinstance(x, tuple) and x[0] == 'call' and x[3].endswith('Iterator::next') for x in walk(e))
+    """the switch that drives a loop: the discriminant of Iterator::next's result itself (a match on the element is a
+    condition like any other)"""
+    if e[0] == 'discr':
+        x = strip(e[1])
+        return x[0] == 'call' and x[3].endswith('Iterator::next')
+    return False
 
 
 def _first_use_after(f, l, block):
